@@ -14,6 +14,7 @@ type realLRU struct{ l *storage.VerifLRU }
 func (r realLRU) Set(key, id uint64, dirty bool) bool { return r.l.Set(key, id, dirty) }
 func (r realLRU) Get(key uint64) (uint64, bool, bool) { return r.l.Get(key) }
 func (r realLRU) SetDirty(key uint64, d bool) bool    { return r.l.SetDirty(key, d) }
+func (r realLRU) Restore(key uint64) bool             { return r.l.Restore(key) }
 func (r realLRU) State() ([]uint64, []uint64, []bool, int, int) {
 	return r.l.State()
 }
